@@ -3,6 +3,7 @@ import DaskModel.Model.SDL
 import DaskModel.Model.Repart
 import DaskModel.Model.Divs
 import DaskModel.Model.Shuffle
+import DaskModel.Model.Groupby
 open Dask
 
 /-- `(sdl (seq…) npartitions n)` / `(sdl (seq…) chunksize c)` ↦ `(ok (divisions…) (locations…))` | `(raised)` -/
@@ -149,7 +150,52 @@ def hSetPartitionsPre : Handler := handler fun args =>
     pure (SExp.ofNats (xs.map fun x => Shuffle.setPartitionsPre d x asc nal))
   | _ => none
 
-def table : List (String × Handler) := [("sdl", hSdl),
+/-! ## C38 -/
+/-- partitions as lists of `(key value|none)` -/
+def rowsOf? (e : SExp) : Option (List (List (Nat × Option Int))) := do
+  (← e.toList?).mapM fun p => do
+    (← p.toList?).mapM fun r => match r with
+      | .list [k, v] => do pure (← k.toNat?, ← v.toOptInt?)
+      | _ => none
+
+def dedupNat (xs : List Nat) : List Nat := xs.foldl (fun acc x => if acc.contains x then acc else acc ++ [x]) []
+
+/-- `(groupby agg split_every parts)` ↦ `((key state…)…)`, keys in first-appearance order; a state is
+    `none` (no non-NA value) or the integers of the monoid element -/
+def hGroupby : Handler := handler fun args =>
+  match args with
+  | [.sym agg, k, ps] => do
+    let k ← k.toNat?
+    let parts ← rowsOf? ps
+    let keys := dedupNat (parts.flatten.map (·.1))
+    let fuel := parts.length + 2
+    let run1 (op : Int → Int → Int) (inj : Option Int → Option Int) : SExp :=
+      let f := Groupby.treeReduce op k fuel (parts.map (Groupby.chunk op inj))
+      .list (keys.map fun key => .list [SExp.ofNat key, SExp.ofOptInt (f key)])
+    match agg with
+    | "sum" => pure (run1 (· + ·) (fun v => some (v.getD 0)))
+    | "count" => pure (run1 (· + ·) (fun v => some (if v.isSome then 1 else 0)))
+    | "size" => pure (run1 (· + ·) (fun _ => some 1))
+    | "min" => pure (run1 Groupby.opMin id)
+    | "max" => pure (run1 Groupby.opMax id)
+    | "first" => pure (run1 Groupby.opFirst id)
+    | "last" => pure (run1 Groupby.opLast id)
+    | "mean" =>
+      let f := Groupby.treeReduce Groupby.opPair k fuel (parts.map (Groupby.chunk Groupby.opPair
+        (fun (v : Option Int) => some (v.getD 0, if v.isSome then 1 else 0))))
+      pure (.list (keys.map fun key => match f key with
+        | some (s, c) => .list [SExp.ofNat key, .int s, .int c]
+        | none => .list [SExp.ofNat key, .sym "none"]))
+    | "var" =>
+      let f := Groupby.treeReduce Groupby.opTriple k fuel (parts.map (Groupby.chunk Groupby.opTriple
+        (fun (v : Option Int) => some (if v.isSome then 1 else 0, v.getD 0, (v.getD 0) * (v.getD 0)))))
+      pure (.list (keys.map fun key => match f key with
+        | some (c, s, q) => .list [SExp.ofNat key, .int c, .int s, .int q]
+        | none => .list [SExp.ofNat key, .sym "none"]))
+    | _ => none
+  | _ => none
+
+def table : List (String × Handler) := [("sdl", hSdl), ("groupby", hGroupby),
   ("stage-index", hStageIndex), ("simple-shuffle", hSimpleShuffle), ("task-shuffle", hTaskShuffle),
   ("layer-wiring", hLayerWiring), ("set-partitions-pre", hSetPartitionsPre),
   ("truthful", hTruthful), ("locslice-divs", hLocSliceDivs), ("partitions-divs", hPartitionsDivs),
